@@ -144,7 +144,10 @@ void MML_Input::mml_reverse_rest(int duration)
 
 void MML_Input::mml_grace()
 {
-	int c = read_note(get_token());
+	int c = get_token();
+	if(c < 'a' || c > 'h')
+		parse_error("expected a note after '~'");
+	c = read_note(c);
 	int duration = read_duration();
 	mml_reverse_rest(duration);
 	track->add_note(c, duration);
